@@ -4,5 +4,5 @@ CONSTANTS
   W = 32
   B = 3
   N = 13
-INVARIANTS ImplOneEncoding
+INVARIANTS OldOneEncoding
 CHECK_DEADLOCK FALSE
